@@ -278,6 +278,12 @@ pub fn build_request(origin: &Name, pre: &[Record], upd: &[Record], signer: &TSi
     m.add_authorities(upd.iter().cloned());
     m.finalize(signer, NOW).ok()?;
     let bytes = m.to_vec().ok()?;
+    // a message that does not fit into 65 535 octets is silently truncated by the encoder (RRs dropped, TC set):
+    // that is the client's problem, not an UPDATE the server ever sees in full — skip it
+    let back = Message::from_vec(&bytes).ok()?;
+    if back.truncation || back.answers.len() != pre.len() || back.authorities.len() != upd.len() {
+        return None;
+    }
     Request::from_bytes(bytes, "127.0.0.1:5300".parse().unwrap(), Protocol::Udp).ok()
 }
 
@@ -1005,7 +1011,61 @@ pub fn gen_zone(rng: &mut Rng) -> Vec<Record> {
     if rng.chance(1, 3) {
         z.push(mk("*.w.example.com.", 300, RData::TXT(TXT::new(vec!["t1".to_string()]))));
     }
+    if rng.chance(1, 25) {
+        let mut r = gen_large(rng);
+        r.dns_class = DNSClass::IN;
+        r.ttl = 300;
+        z.push(r);
+    }
     z
+}
+
+/// set for the thorough tier: RDATA of 16 000 … 65 000 octets are generated at random as well
+pub static GIANTS: std::sync::atomic::AtomicBool = std::sync::atomic::AtomicBool::new(false);
+
+pub const LARGE_SIZES: [usize; 8] = [300, 511, 512, 513, 1000, 4000, 16000, 65000];
+pub const LONG_OWNER: &str = "aaaaaaaaaaaaaaaaaaaaaaaaaaaaaaaaaaaaaaaaaaaaaaaaaaaaaaaaaaaaaaa.bbbbbbbbbbbbbbbbbbbbbbbbbbbbbbbbbbbbbbbbbbbbbbbbbbbbbbbbbbbbbbb.ccccccccccccccccccccccccccccccccccccccccccccccccccccccccccccccc.dddddddddddddddddddddddddddddddddddddddd.example.com.";
+
+/// RDATA token of about `size` octets, a function of (type, size) only — so that a later class-NONE delete
+/// of the same size names the same RDATA.  TXT: character-strings of <= 255 octets; other types: raw octets.
+pub fn large_rdata_tok(rtype: u16, size: usize) -> String {
+    let mut b: Vec<u8> = Vec::with_capacity(size);
+    if rtype == T_TXT {
+        let mut left = size;
+        let mut i = 0u8;
+        while left > 0 {
+            let l = left.saturating_sub(1).min(255);
+            b.push(l as u8);
+            b.extend(std::iter::repeat(b'a' + (i % 26)).take(l));
+            left -= l + 1;
+            i = i.wrapping_add(1);
+            if l == 0 {
+                break;
+            }
+        }
+    } else {
+        b.extend((0..size).map(|k| (k % 251) as u8));
+    }
+    format!("x{}", hex(&b))
+}
+
+/// an RR with large RDATA (wire form from 300 up to ~65 000 octets) or a 254-octet owner name
+pub fn gen_large(rng: &mut Rng) -> Record {
+    let giants = GIANTS.load(std::sync::atomic::Ordering::Relaxed);
+    let size = match rng.below(10) {
+        0..=5 => *rng.pick(&LARGE_SIZES[..6]),
+        6..=7 => rng.range(256, 4000) as usize,
+        _ if giants => {
+            if rng.chance(1, 2) { *rng.pick(&LARGE_SIZES[6..]) } else { rng.range(4000, 65000) as usize }
+        }
+        _ => 513,
+    };
+    let t = *rng.pick(&[T_TXT, T_TXT, T_TXT, T_NULL, 65280]);
+    let picked = if rng.chance(1, 6) { LONG_OWNER } else { *rng.pick(&["a.example.com.", "b.example.com.", "www.example.com.", "example.com."]) };
+    let name = name_tok(&n(&cased(rng, picked)));
+    // mostly adds; sometimes the class-NONE delete of the same RDATA
+    let (class, ttl) = if rng.chance(1, 5) { (C_NONE, 0) } else { (C_IN, 300) };
+    parse_rec(&format!("{name},{t},{class},{ttl},{}", large_rdata_tok(t, size))).expect("large record")
 }
 
 /// odd but parseable RRs: type NULL with and without RDATA, an unknown type, the obsolete metatypes
@@ -1057,6 +1117,9 @@ pub fn gen_prereq(rng: &mut Rng) -> Record {
 pub fn gen_update(rng: &mut Rng) -> Record {
     if rng.chance(1, 16) {
         return gen_odd(rng, false);
+    }
+    if rng.chance(1, 150) {
+        return gen_large(rng);
     }
     let picked = pick_name(rng);
     let name_s = cased(rng, picked);
@@ -1156,6 +1219,7 @@ fn gen_history(rng: &mut Rng) -> Vec<String> {
 }
 
 pub fn run(o: &Opts, rec: &mut Recorder) {
+    GIANTS.store(o.thorough(), std::sync::atomic::Ordering::Relaxed);
     rec.rule = "an `upd`/`pre` line that changed the zone or was judged after an earlier change of the same history (distinct by case text)".into();
     let mut hist = Hist { rt: rt(), origin: Name::root(), h: None, twin: None, changes: 0 };
     for l in &o.pre_lines {
